@@ -833,8 +833,16 @@ func main() {
 			for i, rq := range in.Requests {
 				exp := cl.route(rq)
 				ob := rr.observed[i]
+				if which := cl.wildSituation(rq); which != "" {
+					// documented regex reading of wildcard hosts differing from the declared path type: counted, not judged against the type
+					bucket := "documented-wildcard-regex:" + which
+					res.Count(bucket)
+					if _, seen := res.Extra[bucket]; !seen {
+						res.Extra[bucket] = map[string]interface{}{"request": rq, "observed": ob, "expected_by_regex_reading": exp, "note": in.Note, "reproduce": "corpus/C03: builtin case 'wildcard host *.wild.example with the exact sibling a.wild.example'"}
+					}
+				}
 				if exp.Ambiguous {
-					res.Count("skipped_ambiguous_prefix_begin_tie")
+					res.Count("skipped_ambiguous_" + map[bool]string{true: "wildcard_overlap", false: "prefix_begin_tie"}[strings.HasPrefix(exp.Via, "wildcard host")])
 					continue
 				}
 				keptReqs = append(keptReqs, rq)
